@@ -373,15 +373,33 @@ func c04BytesRead(c *Ctx) {
 	// receive stream: Abandon on each early-termination path
 	abI := c.obj(fc, "StreamFlowController", "Abandon")
 	isNC := c.obj("", "ReceiveStream", "isNewlyCompleted")
-	for _, m := range []string{"CancelRead", "handleStreamFrame"} {
-		f := c.fn("", "ReceiveStream", m)
+	// every sibling that can complete the receive side (calls isNewlyCompleted) abandons on completion;
+	// the list of siblings is taken from the code, the exceptions are frozen with their reason
+	completionExceptions := map[string]string{
+		"Read": "completion after Read means the error (io.EOF or the reset error) was read: at EOF every byte was consumed, and readImpl abandons as soon as a remote cancellation becomes effective (checked below)",
+		"Peek": "Peek never completes a stream by itself; same argument as Read",
+	}
+	nSib := 0
+	for _, cs := range c.P.CallSites(isNC) {
+		f := rootFn(cs.Fn)
+		m := f.Name()
+		if f.Signature.Recv() == nil {
+			continue
+		}
+		if n := namedOf(f.Signature.Recv().Type()); n == nil || n.Obj().Name() != "ReceiveStream" {
+			continue
+		}
+		nSib++
+		if why, ok := completionExceptions[m]; ok {
+			c.OK(R, "abandon-on-completion@"+m, c.P.InstrPos(cs.Instr), "exception: "+why)
+			continue
+		}
 		// past the isNewlyCompleted()==true edge every path to return calls Abandon
-		completedTrue := false
 		q := &Cut{Fn: f, Target: isReturn, Barrier: CallsTo(abI),
 			Edge: EdgeRel(BoolTrue(CallTo(isNC, -1)), true)}
-		_ = completedTrue
-		c.cut(R, "abandon-on-completion@"+m, q, "when the receive side completes here, unread bytes are returned to the connection window")
+		c.cut(R, "abandon-on-completion@"+m, q, "when the receive side completes here, unread bytes are returned to the connection window (a stream cancelled locally may be completed by any later frame that reveals the final size)")
 	}
+	c.Floor(R, "receive-stream methods that can complete the stream", nSib, 4)
 	// remote reset: Abandon once reliable data was read
 	hrs := c.fn("", "ReceiveStream", "handleResetStreamFrameImpl")
 	readPos := c.fld("", "ReceiveStream", "readPos")
